@@ -27,7 +27,7 @@ import types
 REAL = {}
 CUR = threading.local()
 STATE = types.SimpleNamespace(root=None, installed=False, shims=[], files=[], flocks={}, mainctr=itertools.count(),
-                              dirty=set(), outside=None, slists=[], shared_private=set(), priv_owner={}, escapes=[], audit=False, fdpaths={}, vclock=0.0, frozen_mtime=False,
+                              dirty=set(), outside=None, slists=[], shared_private=set(), priv_owner={}, escapes=[], audit=False, fdpaths={}, vclock=0.0, frozen_mtime=False, list_reverse=False,
                               audited=0)
 
 TMP_PREFIXES = ("objects/tmp", "metadata/tmp", "refs/tmp")
@@ -212,6 +212,34 @@ class FrozenStat:
         return len(tuple(self._st))
 
 
+class _OrderedScandir:
+    """os.scandir result with a fixed entry order (the real iterator yields in file-system order)."""
+
+    def __init__(self, it, reverse):
+        with it:
+            self._entries = sorted(it, key=lambda e: e.name, reverse=reverse)
+        self._i = 0
+
+    def __iter__(self):
+        return self
+
+    def __next__(self):
+        if self._i >= len(self._entries):
+            raise StopIteration
+        e = self._entries[self._i]
+        self._i += 1
+        return e
+
+    def close(self):
+        self._i = len(self._entries)
+
+    def __enter__(self):
+        return self
+
+    def __exit__(self, *a):
+        self.close()
+
+
 def _mk_hook(name, nargs):
     real = REAL["os." + name]
     kind = KIND[name]
@@ -253,8 +281,13 @@ def _mk_hook(name, nargs):
             if STATE.frozen_mtime:
                 res = FrozenStat(res)
         elif name == "listdir":
-            res = sorted(res)
+            # the order of a directory listing is arbitrary: the layer fixes it (sorted), or reversed when the scenario asks
+            # for the other environment answer
+            res = sorted(res, reverse=STATE.list_reverse)
             w.obs(op, tuple(res))
+        elif name == "scandir":
+            res = _OrderedScandir(res, STATE.list_reverse)
+            w.obs(op, tuple(e.name for e in res._entries))
         else:
             w.obs(op, "ok")
         return res
